@@ -189,6 +189,7 @@ func runC11(c *core.Ctx) error {
 		}
 	}
 	checkGuardedRecursion(c, r4, prog, recExempt)
+	checkNilContradictions(c, prog, table)
 	return nil
 }
 
@@ -667,4 +668,229 @@ func checkGuardedRecursion(c *core.Ctx, r *core.Rule, prog *core.Prog, exempt ma
 			r.Fail(key, pos, fmt.Sprintf("recursion over %s (a graph that $ref makes cyclic) without a visited set or depth bound: a self-referential schema overflows the stack", kind))
 		}
 	}
+}
+
+// ---------------------------------------------------------------- R11.5
+
+// accessPath names the memory a pointer value was read from: param.f.g, local.f, rangevar.f. "" if not nameable.
+func accessPath(v ssa.Value, depth int) string {
+	if depth > 6 {
+		return ""
+	}
+	switch x := v.(type) {
+	case *ssa.Parameter:
+		return x.Name()
+	case *ssa.FreeVar:
+		return x.Name()
+	case *ssa.UnOp:
+		if x.Op != token.MUL {
+			return ""
+		}
+		switch a := x.X.(type) {
+		case *ssa.FieldAddr:
+			base := accessPath(a.X, depth+1)
+			if base == "" {
+				return ""
+			}
+			st, ok := a.X.Type().Underlying().(*types.Pointer).Elem().Underlying().(*types.Struct)
+			if !ok {
+				return ""
+			}
+			return base + "." + st.Field(a.Field).Name()
+		case *ssa.Alloc:
+			if a.Comment != "" && !strings.HasPrefix(a.Comment, "complit") && a.Comment != "varargs" {
+				return "$" + a.Comment
+			}
+		case *ssa.FreeVar:
+			return "$" + a.Name()
+		}
+	case *ssa.Field:
+		base := accessPath(x.X, depth+1)
+		if base == "" {
+			return ""
+		}
+		st, ok := x.X.Type().Underlying().(*types.Struct)
+		if !ok {
+			return ""
+		}
+		return base + "." + st.Field(x.Field).Name()
+	case *ssa.Extract:
+		if nx, ok := x.Tuple.(*ssa.Next); ok {
+			return fmt.Sprintf("range@%d#%d", nx.Pos(), x.Index)
+		}
+	case *ssa.Alloc:
+		if x.Comment != "" && !strings.HasPrefix(x.Comment, "complit") {
+			return "&" + x.Comment
+		}
+	}
+	return ""
+}
+
+// checkNilContradictions (R11.5): a contradiction rule in Engler's sense. If a function tests a pointer read from
+// some place (p.Schema == nil) and carries on when it is nil, then every dereference of a pointer read from the same
+// place must sit under the non-nil edge of such a test. One path believes it can be nil, the other that it cannot.
+func checkNilContradictions(c *core.Ctx, prog *core.Prog, table *panicob.Table) {
+	r := c.NewRule("R11.5", "S1", "a pointer that is tested for nil on one path is not dereferenced unguarded on another (same access path, same function)", 20)
+	scope := map[string]bool{pkgGen: true, pkgIR: true, core.Module + "/openapi/parser": true, pkgJS: true, pkgOpenAPI: true}
+	var fns []*ssa.Function
+	for _, sp := range prog.SSAPkgs {
+		if sp == nil || !scope[sp.Pkg.Path()] {
+			continue
+		}
+		fns = append(fns, core.PkgFuncs(prog.SSA, sp)...)
+	}
+	for _, fn := range fns {
+		if fn.Blocks == nil {
+			continue
+		}
+		// nil tests: path → blocks reached with the pointer known non-nil; and whether the nil side carries on
+		type test struct {
+			nonNil  *ssa.BasicBlock
+			nilSide *ssa.BasicBlock
+			pos     token.Pos
+		}
+		tests := map[string][]test{}
+		for _, b := range fn.Blocks {
+			iff, ok := b.Instrs[len(b.Instrs)-1].(*ssa.If)
+			if !ok {
+				continue
+			}
+			bo, ok := iff.Cond.(*ssa.BinOp)
+			if !ok || (bo.Op != token.EQL && bo.Op != token.NEQ) {
+				continue
+			}
+			var v ssa.Value
+			switch {
+			case core.IsNilConst(bo.Y):
+				v = bo.X
+			case core.IsNilConst(bo.X):
+				v = bo.Y
+			default:
+				continue
+			}
+			if _, isPtr := v.Type().Underlying().(*types.Pointer); !isPtr {
+				continue
+			}
+			path := accessPath(v, 0)
+			if path == "" || !strings.Contains(path, ".") {
+				continue
+			}
+			t := test{pos: bo.Pos()}
+			if bo.Op == token.EQL {
+				t.nilSide, t.nonNil = b.Succs[0], b.Succs[1]
+			} else {
+				t.nonNil, t.nilSide = b.Succs[0], b.Succs[1]
+			}
+			tests[path] = append(tests[path], t)
+		}
+		if len(tests) == 0 {
+			continue
+		}
+		// does some nil side carry on (not end in return / panic right away)?
+		carriesOn := func(b *ssa.BasicBlock) bool {
+			seen := map[*ssa.BasicBlock]bool{}
+			var walk func(x *ssa.BasicBlock, d int) bool
+			walk = func(x *ssa.BasicBlock, d int) bool {
+				if seen[x] || d > 3 {
+					return d > 3
+				}
+				seen[x] = true
+				switch x.Instrs[len(x.Instrs)-1].(type) {
+				case *ssa.Return, *ssa.Panic:
+					return false
+				}
+				for _, s := range x.Succs {
+					if walk(s, d+1) {
+						return true
+					}
+				}
+				return len(x.Succs) == 0
+			}
+			return walk(b, 0)
+		}
+		// lazy initialisation: the nil side assigns the place (`if s.Items == nil { s.Items = new(T) }`)
+		assigns := func(b *ssa.BasicBlock, path string) bool {
+			for _, in := range b.Instrs {
+				st, ok := in.(*ssa.Store)
+				if !ok {
+					continue
+				}
+				if fa, ok := st.Addr.(*ssa.FieldAddr); ok {
+					base := accessPath(fa.X, 0)
+					if stt, ok := fa.X.Type().Underlying().(*types.Pointer).Elem().Underlying().(*types.Struct); ok && base != "" {
+						if base+"."+stt.Field(fa.Field).Name() == path && !core.IsNilConst(st.Val) {
+							return true
+						}
+					}
+				}
+			}
+			return false
+		}
+		for path, ts := range tests {
+			cont := false
+			for _, t := range ts {
+				if carriesOn(t.nilSide) && !assigns(t.nilSide, path) {
+					cont = true
+				}
+			}
+			if !cont {
+				continue
+			}
+			// dereferences of pointers read from the same place
+			for _, b := range fn.Blocks {
+				for _, in := range b.Instrs {
+					var ptr ssa.Value
+					switch x := in.(type) {
+					case *ssa.FieldAddr:
+						ptr = x.X
+					case *ssa.UnOp:
+						if x.Op == token.MUL {
+							if _, isFA := x.X.(*ssa.FieldAddr); !isFA {
+								if _, isAl := x.X.(*ssa.Alloc); !isAl {
+									ptr = x.X
+								}
+							}
+						}
+					}
+					if ptr == nil || accessPath(ptr, 0) != path {
+						continue
+					}
+					guarded := false
+					for _, t := range ts {
+						if len(t.nonNil.Preds) == 1 && (t.nonNil == b || t.nonNil.Dominates(b)) {
+							guarded = true
+						}
+						// `if p.x == nil { return … }` makes everything after it non-nil: the join block is dominated by
+						// the test block and the nil side does not reach it
+						if !carriesOn(t.nilSide) && t.nonNil.Dominates(b) {
+							guarded = true
+						}
+					}
+					key := fmt.Sprintf("nil-contradiction:%s:%s", fnKeyFull(fn), strings.TrimPrefix(path, "$"))
+					if guarded {
+						r.Ob(true, "")
+						continue
+					}
+					if e := tableReason(table, key); e != "" {
+						r.Justified++
+						r.Pass(fmt.Sprintf("%s at %s: reviewed: %s", key, c.Pos(in.Pos()), e))
+						continue
+					}
+					r.Fail(key, c.Pos(in.Pos()), fmt.Sprintf("%s tests %s for nil (%s) and carries on when it is nil, but dereferences it here outside the non-nil branch: a document that makes it nil (null in place of a schema) crashes the generator", fn.Name(), strings.TrimPrefix(path, "$"), c.Pos(ts[0].pos)))
+				}
+			}
+		}
+	}
+}
+
+func tableReason(t *panicob.Table, key string) string {
+	if t == nil {
+		return ""
+	}
+	for _, e := range t.Entries {
+		if e.Key == key {
+			return e.Reason
+		}
+	}
+	return ""
 }
